@@ -600,6 +600,9 @@ class JSONAttrList(JSONList):
     """A :class:`JSONList` whose dict-like children will be of type :class:`JSONAttrDict`."""
 
     _backend = __name__ + ".attr"  # type: ignore
+    # Dicts nested in these lists are attribute-access dicts, so data added
+    # through the list must satisfy their key restrictions as well.
+    _validators = (no_dot_in_key,)
 
 
 class BufferedJSONAttrDict(BufferedJSONDict, AttrDict):
@@ -616,6 +619,9 @@ class BufferedJSONAttrList(BufferedJSONList):
     """A :class:`BufferedJSONList` whose dict-like children will be of type :class:`BufferedJSONAttrDict`."""  # noqa: E501
 
     _backend = __name__ + ".buffered_attr"  # type: ignore
+    # Dicts nested in these lists are attribute-access dicts, so data added
+    # through the list must satisfy their key restrictions as well.
+    _validators = (no_dot_in_key,)
 
 
 class MemoryBufferedJSONAttrDict(MemoryBufferedJSONDict, AttrDict):
@@ -632,3 +638,6 @@ class MemoryBufferedJSONAttrList(MemoryBufferedJSONList):
     """A :class:`MemoryBufferedJSONList` whose dict-like children will be of type :class:`MemoryBufferedJSONAttrDict`."""  # noqa: E501
 
     _backend = __name__ + ".memory_buffered_attr"  # type: ignore
+    # Dicts nested in these lists are attribute-access dicts, so data added
+    # through the list must satisfy their key restrictions as well.
+    _validators = (no_dot_in_key,)
